@@ -107,6 +107,9 @@ def fallback_contract(run):
 
 
 def build(run):
+    from props import conformance
+
+    conformance.run_conformance(run, ['ops'])
     run.assume("A-ENGINE", "A-PY", "A-REAL (rescaling ops are equal over the reals)", "A-TORCH-EW / A-TORCH-IDX operator contracts (also used for the reference)",
                "A-TORCH-DISPATCH an aten op with a tensor-subclass argument reaches that class's __torch_dispatch__ with op.overloadpacket naming the op",
                "A-TORCH-CAP ops unavailable for float8 payloads (probed on the real library at check time)")
